@@ -43,7 +43,7 @@ def admissible_masks(grid):
 
 
 def pe_state_vars(sp: Space, coords, *, tracers=(), box=1.0, free_top=False, prefix='', lsp_box=None,
-                  support=None):
+                  support=None, tracer_box=None):
   """Symbolic admissible PE state: list of PolyArr [vor, div, T, lsp, *tracers].
 
   Zero-mean vorticity/divergence, top wavenumber and masked entries fixed to 0 (unless free_top).
@@ -62,7 +62,8 @@ def pe_state_vars(sp: Space, coords, *, tracers=(), box=1.0, free_top=False, pre
          PolyArr.variables(sp, prefix + 'T', ms, -box, box, free=b(base, ms)),
          PolyArr.variables(sp, prefix + 'lsp', ss, -(lsp_box or box), (lsp_box or box), free=b(base, ss))]
   for t in tracers:
-    out.append(PolyArr.variables(sp, prefix + t, ms, -box, box, free=b(base, ms)))
+    tb = (tracer_box or {}).get(t, box)
+    out.append(PolyArr.variables(sp, prefix + t, ms, -tb, tb, free=b(base, ms)))
   return out
 
 
